@@ -146,6 +146,7 @@ def run(P, R):
     R.check(r2, ok, 'the instance load includes the starts already requested there', 'selection|instance-load', u.loc(),
             'is_loading_valid computes instance_loading as %s' % ' + '.join(inst))
 
+    shared.running_filter(P, R, r2)
     shared.pending_per_node(P, R, r2)
     shared.pending_load_definition(P, R, r2)
 
